@@ -309,6 +309,8 @@ EvRet(e) ==
            \cup (IF solveok /\ e.printed_exc THEN {"NoIntExc"} ELSE {})
            \cup (IF e.name = "solve" /\ e.raised = "none" /\ ~e.ret_is_results THEN {"SolveReturnsResults"} ELSE {})
            \cup (IF g THEN {} ELSE NotifRetFails(e)) \cup CertFails(e)
+           \* the lists handed to OnEndIteration by earlier calls, read again after this call, still hold the trials of their own calls
+           \cup (IF "kept_ok" \in DOMAIN e /\ ~e.kept_ok THEN {"NotifListKept"} ELSE {})
            \* an observation (GetResults only, possibly after other solvers acted) shows exactly what the last call left
            \cup (IF e.name = "observe" /\ sn.last # <<>> /\ e.sol # sn.last THEN {"ObservedUnchanged"} ELSE {})
   IN /\ Note(e, f)
